@@ -326,6 +326,18 @@ theorem internalized_all_recognised : KinModel.Gen.internalized.all (fun r => !K
 theorem internalized_matches_model : KinModel.Gen.internalized = KinModel.Gen.modelDescent := by
   decide
 
+/-- **every field of the document types through which a reference position can be reached from `openapi3.T` is read by
+the descent of InternalizeRefs** — except `Parameter.Examples` (finding F-C16-7). The table is regenerated from the type
+declarations and from internalize_refs.go on every run: a new ref-bearing field the descent does not visit, or a visit
+dropped from the descent, breaks this obligation. -/
+theorem ref_fields_all_read_partial : KinModel.Gen.c16RefFields.all KinModel.Gen.rfOK = true := by
+  decide
+
+/-- F-C16-7 in the table: the field is there, and not read -/
+theorem witness_ref_field_not_read :
+    KinModel.Gen.c16RefFields.contains (KinModel.Gen.RFRow.field "Parameter" "Examples" false) = true := by
+  decide
+
 /-! ### the parent-is-external flag -/
 section Flag
 open KinModel.Internalize
